@@ -2038,11 +2038,13 @@ def explore(fn, max_paths=2000, timeout_ms=10000, linearize=True, maxcases=8, al
 
 
 def _blame(tb):
-    """file of the innermost frame that is neither engine nor library code"""
+    """file of the innermost frame that belongs either to the code under test or to the harness (library and
+    engine frames in between are skipped): an exception raised by a library called FROM the repository is the
+    repository's exception"""
     for f in reversed(tb):
         fn = f.filename
-        if '/symx/' in fn or 'site-packages' in fn or fn.startswith('<'): continue
-        return fn
+        if _in_repo(fn) or '/verif/props/' in fn or '/verif/vlib/' in fn:
+            return fn
     return tb[-1].filename if tb else ''
 
 
